@@ -589,6 +589,36 @@ def shrink_multi(case, seed):
     return dict(case, multi=dict(case["multi"], steps=steps))
 
 
+# ---- a ladder of table sizes (oracle-judged; too long for the vm_compute model) ----------
+
+SIZES = [33, 100, 255, 256, 257, 511, 512, 999, 1000, 1001, 1023, 1024, 1025, 1500, 2047, 2048, 2049, 3000, 4097]
+LONG_NAMES = ["mq", "mqx", "mqxa", "mb", "mbx", "d", "drift", "ip", "ipx"]      # names that are prefixes of other names
+LONG_PATS = ["mq", "mb", "d", "ip", "mq|mb", "mq.*", "M.", "m.x", "d|ip", "drif", ".*x", "[md].*", "mqx?", "IP"]
+
+
+def long_case(rng):
+    """tables of many sizes (powers of two and thousand +-1 among them: size
+    thresholds of fast paths are not known to the generator) over few names, some
+    of them prefixes of others, and string selectors that fully match some names
+    and only a prefix of others; also spans, ranges, masks and tuples"""
+    n = rng.choice(SIZES)
+    alpha = rng.sample(LONG_NAMES, rng.randint(4, len(LONG_NAMES)))
+    w = [rng.choice([1, 3, 10]) for _ in alpha]
+    idx = rng.choices(alpha, weights=w, k=n)
+    t = {"idx": idx, "cols": [["x", [rng.randint(-3, 6) for _ in range(n)]]]}
+    qs = []
+    for _ in range(10):
+        p = rng.choice(LONG_PATS + alpha)
+        m = max(idx.count(p), 1)
+        cnt = rng.choice([None, None, 0, 1, -1, m - 1, m, rng.randint(0, m), -rng.randint(1, m)])
+        qs.append({"one": ["str", mk_str(p, cnt, rng.choice([0, 0, 0, 1, -1]))]})
+    s1 = ["str", rng.choice(LONG_PATS)]
+    qs += [{"tup": [s1, ["range", rng.randint(-3, 2), rng.randint(2, 6), "x"]]}, {"tup": [["slice", n // 3, None], s1]},
+           {"one": ["span", rng.choice(alpha), rng.choice(alpha) + "::-1"]}, {"one": ["range", 5, None, "x"]},
+           {"one": ["names", [rng.choice(alpha) + "::-1", rng.choice(alpha)]]}]
+    return dict(t, queries=qs)
+
+
 # ---- value ranges on columns of any dtype ----------------------------------------------
 
 DTYPES = ["uint8", "uint16", "uint32", "uint64", "int8", "int16", "int32", "int64", "float16", "float32", "float64", "bool", "object"]
@@ -741,7 +771,8 @@ def run(ctx):
                 "2-3 tables alive in one process that differ in the constructor argument regex_flags (default / IGNORECASE / 0) and in "
                 "the letter case of names, the same string selectors evaluated on each in random interleaving; plus tables with columns of every "
                 "dtype (uint8/16/32/64, int8/16/32/64, float16/32/64 with NaN/inf, bool, object numbers; sorted / reverse / constant / unsorted) "
-                "and value ranges with bounds None / inside / NaN / +-inf / outside the dtype's range")
+                "and value ranges with bounds None / inside / NaN / +-inf / outside the dtype's range; plus a ladder of table sizes (33..4097 rows, "
+                "powers of two and 1000 +-1 among them) over names that are prefixes of one another, judged by the reference selector only")
     proof_ok = vlib.standard_proof_part(ctx, "props/C08.v", allowed_axioms=(), extra_targets=["run/RunTableSel.vo"])
     tables, alphas, singles = build_cases(ctx, maxlen, ctx.pick(12, 400), None)
     obs1, ref1, fail1, diff1 = run_cases(ctx, singles, seeds, "s")
@@ -773,6 +804,12 @@ def run(ctx):
     mmism = multi_mismatches(ctx, mcases, mobs, "m")
     nm = sum(len(c["multi"]["steps"]) for c in mcases)
 
+    # a ladder of table sizes up to a few thousand rows: judged by the reference selector only
+    lcases = [long_case(ctx.rng) for _ in range(ctx.pick(10, 120))]
+    lobs, lref, lfail, ldiff = run_cases(ctx, lcases, hseeds[:1], "l")
+    lbad = first_failure(lcases, lfail)
+    ctx.obligations.append(("oracle: the reference selector agrees with the implementation on tables of 33..4097 rows (size ladder)",
+                            lbad is None and not ldiff, "" if lbad is None else str(lbad[3])[:300]))
     # value ranges on columns of every dtype
     vcases = [vrange_case(ctx.rng) for _ in range(ctx.pick(600, 10000))]
     vobs, vref, vfail, vdiff = run_cases(ctx, vcases, hseeds[:1], "v", keys=("vobs", "vref", "vfail"))
@@ -798,6 +835,7 @@ def run(ctx):
                                      "selector_kinds": kinds, "judged_by_reference_selector": judged,
                                      "outside_domain_compared_to_model_only": nq - judged, "errors_observed": errs,
                                      "hash_seeds": seeds, "builds": ["compiled", "pure"],
+                                     "size_ladder_tables": sorted(len(c["idx"]) for c in lcases),
                                      "value_range_tables_any_dtype": len(vcases), "value_range_queries": nv,
                                      "value_range_dtypes": {dt: sum(1 for c in vcases for _, d2, _ in c["vtable"]["vcols"] if d2 == dt) for dt in DTYPES},
                                      "multi_table_scenarios": len(mcases), "multi_table_steps": nm,
@@ -831,7 +869,13 @@ def run(ctx):
                             not hmism, f"{len(hmism)} mismatching histories"))
     ctx.obligations.append(("oracle: after every edit of the index column the same selectors denote the rows of the CURRENT column",
                             hbad is None and not hdiff, "" if hbad is None else str(hbad[3])[:300]))
-    if bad is None and vbad is not None:
+    if bad is None and lbad is not None:
+        _, ci, qi, f = lbad
+        small = single_case(lcases[ci], qi)
+        vlib.violation(ctx, {"kind": "oracle-long-table", "what": "row selection on a long table differs from the documented selector semantics",
+                             "case": small, "rows": len(small["idx"]), "failures": [str(x)[:400] for x in f], "hashseed": hseeds[0],
+                             "how_to_replay": "./check C08 --replay <this file>"})
+    elif bad is None and vbad is not None:
         _, ci, qi, f = vbad
         v = vcases[ci]["vtable"]
         col = v["queries"][qi][2]
